@@ -163,7 +163,8 @@ CHECKS = {
         "shipped modules: edges_ok and slack_ok by vm_compute for every connected component of the declaration graph (every directed table entry within its "
         "bound of a size certificate re-checked in the kernel; total slack <= 1e-5 x degree), every declaration still in the table (no overwrite), and "
         "all_named_reach_si: the planner model converts every named physical unit to and from the coherent SI unit on the regenerated table; the same "
-        "conversions run on the implementation against the model and the exact oracle.",
+        "conversions run on the implementation against the model and the exact oracle. Gen_reciprocal: the exported _ratios/_offsets satisfy the declaration invariants "
+        "(reciprocal ratios, opposite offsets) that C08_declarations_keep_table_reciprocal / C10_history_tables prove of every history.",
    note=TB + "The certificate solver is untrusted (its output is re-checked). Known findings: the two ton-of-refrigeration declarations disagree by 6.7e-4 "
         "(pinned by tests), units routed through that edge, donkeypower does not reach SI. Dimensionless named units are outside the reach-SI clause. Axioms: none.",
    tech="Rocq proof: telescoping chain bound (induction, NoDup product lemma) + reflective vm_compute on the regenerated declarations", ref="DESIGN.md §4 C09"),
